@@ -16,6 +16,8 @@ C09 = g(dict(rfbad=6, snap=2, restore=2, add_dim=6, del_dim=4, add_attr=10, del_
 C10 = g(dict(hint=5, rfbad=6, snap=4, restore=5, add_dim=4, del_dim=3, add_attr=10, del_attr=8, rename=3, disable=10, upd=14, rekey=14, prune=4, keygen=8, refresh=12, encaps=4, decaps=2, recaps=1, rt=1, mpk=1))
 C11 = g(dict(snap=0, restore=0, add_dim=3, del_dim=1, add_attr=10, del_attr=3, rename=2, disable=2, upd=10, rekey=10, prune=3, keygen=10, refresh=10, encaps=16, decaps=8, recaps=3, rt=6, mpk=2))
 C13 = g(dict(snap=2, restore=2, add_dim=3, del_dim=2, add_attr=8, del_attr=4, rename=2, disable=4, upd=10, rekey=8, prune=3, keygen=10, refresh=8, encaps=10, decaps=10, recaps=3, rt=30, mpk=3), multibyte=True)
+# C16 (history part): rotations interleaved with disabling, pruning and updates; no backup/restore (a restored master key republishes by design)
+C16H = g(dict(snap=0, restore=0, add_dim=1, del_dim=1, add_attr=3, del_attr=2, rename=1, disable=8, upd=12, rekey=22, prune=6, keygen=3, refresh=3, encaps=4, decaps=2, recaps=1, rt=4, mpk=6))
 C17 = g(dict(rfbad=8, snap=3, restore=3, add_dim=1, del_dim=1, add_attr=3, del_attr=3, rename=1, disable=1, upd=6, rekey=6, prune=3, keygen=20, refresh=20, encaps=3, decaps=3, recaps=0, rt=12, mpk=1))
 C18 = g(dict(add_dim=1, del_dim=2, add_attr=3, del_attr=5, rename=1, disable=8, upd=10, rekey=12, prune=8, keygen=8, refresh=6, encaps=14, decaps=10, recaps=22, rt=2, mpk=4))
 
@@ -141,3 +143,29 @@ def rotation_scenario(rng, disable=False):
 
 def with_rotation(gen, share=0.1, disable=False):
     return lambda rng: rotation_scenario(rng, disable) if rng.random() < share else gen(rng)
+
+
+def shrink_scenario(rng):
+    """C18 directed: an encapsulation with MANY targets, then the master key shrinks (attributes / a dimension deleted,
+    secrets pruned, attributes disabled) until it holds fewer rights than the encapsulation has components while at least one
+    original target survives; the re-encapsulation must succeed and address exactly the survivors."""
+    x = hist.x
+    out = ['SETUP', f"{rng.choice(['AA', 'AH'])} {x('D')}"]; nmpk = 1
+    n = rng.randint(3, 6); names = [chr(97 + i) for i in range(n)]
+    for a in names: out.append(f"AT {x('D')} {x(a)} {rng.choice('001')} -")
+    other = rng.random() < 0.3
+    if other: out += [f"AA {x('S')}", f"AT {x('S')} {x('s')} 0 -"]
+    out.append('UPD'); nmpk += 1
+    for a in names[:2]: out.append(f'KG {x("D::" + a)}')
+    out.append(f'KG {x("*")}')
+    out.append(f'EN {nmpk - 1} {x(" || ".join("D::" + a for a in names))}')
+    if rng.random() < 0.4: out.append(f'RK {x("D::" + names[0])}'); nmpk += 1
+    keep = rng.randint(1, 2)
+    for a in names[keep:]:
+        out.append(f"{'DT' if rng.random() < 0.8 else 'DS'} {x('D')} {x(a)}")
+    if other and rng.random() < 0.7: out.append(f'DD {x("S")}')
+    out.append('UPD'); nmpk += 1
+    out.append(f'RC {nmpk - 1} 0')
+    out += ['RF 0 1', 'RF 1 0', 'RF 2 1']
+    out += [f'DE {k} {e}' for k in range(3) for e in range(2)]
+    return out
